@@ -259,6 +259,40 @@ def ds_closure(D, maxlen, res):
     return seen
 
 
+def ds_overwrite_family(D, res):
+    """every set of held offsets over 0..D-1 (runs of 0x00 added left to right, or right to left) x every
+    single add of 0xff bytes: one write that starts inside one run, swallows others and ends inside a
+    further one needs more positions than the closure's universe offers"""
+    n = 0
+    for mask in range(1 << D):
+        runs, i = [], 0
+        while i < D:
+            if mask >> i & 1:
+                j = i
+                while j < D and mask >> j & 1:
+                    j += 1
+                runs.append(["add", i, b"\x00" * (j - i)])
+                i = j
+            else:
+                i += 1
+        if len(runs) < 2:
+            continue
+        for base_hist in (runs, runs[::-1]):
+            for s in range(D):
+                for l in range(1, D - s + 1):
+                    h2 = base_hist + [["add", s, b"\xff" * l]]
+                    res.count("transitions")
+                    n += 1
+                    try:
+                        ds, ref, bad = ds_build(h2)
+                        bad = bad + ds_check(ds, ref, D)
+                    except Exception as e:  # noqa
+                        bad = ["exception %r" % (e,)]
+                    if bad:
+                        res.violation("dataspans-overwrite:" + bad[0].split("(")[0].split()[0], {"kind": "DataSpans", "history": h2, "base": BASE[0]}, "; ".join(bad[:3]))
+    return n
+
+
 def replay(case):
     BASE[0] = case.get("base", 0)
     k = case["kind"]
@@ -288,6 +322,9 @@ def _closure_job(chunk):
             seen = spans_closure(U, res)
             res.count("shifted_spans_states", len(seen))
             continue
+        if kind == "dsover":
+            res.count("ds_overwrite_cases", ds_overwrite_family(U, res))
+            continue
         if kind == "spans":
             seen = spans_closure(U, res)
             res.notes["spans_hists"] = [seen[k] for k in sorted(seen)]
@@ -303,7 +340,9 @@ def _closure_job(chunk):
 def run(tier, seed):
     U = 8 if tier == "quick" else 9
     D, maxlen = (6, 3) if tier == "quick" else (7, 4)
-    res = common.pmap(_closure_job, [("spans", U, 0, 0), ("ds", D, maxlen, 0), ("spans", U, 0, 1000), ("ds", D, maxlen, 1000)], chunks=4)
+    DO = 10 if tier == "quick" else 12
+    res = common.pmap(_closure_job, [("spans", U, 0, 0), ("ds", D, maxlen, 0), ("spans", U, 0, 1000), ("ds", D, maxlen, 1000),
+                                     ("dsover", DO, 0, 0), ("dsover", DO, 0, 1000)], chunks=6)
     BASE[0] = 0
     hists = res.notes.pop("spans_hists")
     n = len(hists)
@@ -319,7 +358,8 @@ def run(tier, seed):
         "spans_internal_states": n,
         "dataspans_internal_states": res.counts.get("ds_states", 0),
         "spans_pairs_for_binary_ops": len(pairs),
-        "rule": "reachable-state closure: BFS over all add/remove (Spans, universe 0..%d) and add/remove/pop (DataSpans, universe 0..%d, byte values 0x00 and 0xff, add length <= %d) until no new internal representation appears; every transition runs the real class and is compared with a set/dict reference; all ordered pairs of Spans states under + - & += -= copy" % (U - 1, D - 1, maxlen),
+        "dataspans_overwrite_cases": res.counts.get("ds_overwrite_cases", 0),
+        "rule": "reachable-state closure: BFS over all add/remove (Spans, universe 0..%d) and add/remove/pop (DataSpans, universe 0..%d, byte values 0x00 and 0xff, add length <= %d) until no new internal representation appears; every transition runs the real class and is compared with a set/dict reference; all ordered pairs of Spans states under + - & += -= copy; DataSpans overwrite family: every set of held offsets over 0..%d (>= 2 runs, built in both orders) x every single add" % (U - 1, D - 1, maxlen, DO - 1),
     }
     return res, cov
 
